@@ -33,6 +33,15 @@ type markItem struct{ id int }
 func (p *markItem) SortID() int { return p.id }
 func (p *markItem) Priority()   {}
 
+// mixItem: one named type whose value form is merely ordered (Order has a value receiver)
+// while its pointer form is priority-ordered (Priority has a pointer receiver): the class of
+// a participant is a matter of the dynamic value, not of the type's name.
+type mixItem struct{ id, o int }
+
+func (p mixItem) SortID() int { return p.id }
+func (p mixItem) Order() int  { return p.o }
+func (p *mixItem) Priority()  {}
+
 type sortCase struct {
 	Items [][3]int `json:"items"` // id, class (0 unordered, 1 ordered, 2 priority), order — in arrival order
 }
@@ -52,6 +61,12 @@ func judgeSortCase(c *sortCase) []model.Violation {
 			in = append(in, &prioItem{it[0], it[2]})
 		case 3:
 			in = append(in, &markItem{it[0]})
+		case 4:
+			in = append(in, mixItem{it[0], it[2]}) // value form: ordered
+			cls[it[0]] = 1
+		case 5:
+			in = append(in, &mixItem{it[0], it[2]}) // pointer form: priority-ordered
+			cls[it[0]] = 2
 		}
 	}
 	var out []sortItem
@@ -117,6 +132,9 @@ func sorterBatch(job *Job, n int, acc *statAcc, res *Result) {
 			cl := r.IntN(3)
 			if r.IntN(8) == 0 {
 				cl = 3
+			}
+			if r.IntN(8) == 0 {
+				cl = 4 + r.IntN(2)
 			}
 			c.Items = append(c.Items, [3]int{j, cl, o})
 		}
